@@ -92,11 +92,16 @@ def run(ctx):
             raise ToolError("TLC produced no histories")
         histories += cs
     exhaustive_n = len(histories)
+    if ctx.quick:
+        # quick tier: every history of <= 4 operations (prefix-closed: take the distinct 4-prefixes) and a seeded
+        # sample of the 5-operation ones
+        pref = {json.dumps(h["ops"][:4]): dict(h, ops=h["ops"][:4]) for h in histories}
+        histories = list(pref.values()) + ctx.rng.sample(histories, min(5000, len(histories)))
     # seeded random longer histories
     simc = dict(nf=3, t=1, maxops=10 if ctx.quick else 14, maxh=3, sizes="{0, 1, 2, 3}", limits="{2, 3, 5, 1000000}", lim0=5)
     cfg = ctx.path("sim.cfg")
     open(cfg, "w").write(dm_cfg(view=False, invs="Emit " + INVS, **simc))
-    nsim = 1500 if ctx.quick else 30000
+    nsim = 600 if ctx.quick else 30000
     r = tlc(ctx, "proto/DiskMgrGen", cfg=cfg, workers=1, deadlock=False, tag="sim",
             mode_args=["-simulate", f"num={nsim}", "-depth", "80", "-seed", str(ctx.seed)], timeout=1500)
     sims = tlc_cases(r.out)
@@ -131,7 +136,7 @@ def run(ctx):
         "exhaustive": True,
         "model_checking_runs": mc,
         "pinned_model_violates": rp.invariant_violated,
-        "accounting_histories": {"exhaustive_from_tlc": exhaustive_n, "random_from_tlc_simulate": len(sims),
+        "accounting_histories": {"exhaustive_from_tlc": exhaustive_n, "replayed_total": len(histories), "random_from_tlc_simulate": len(sims),
                                  "replayed_ok": acct["evaluations"], "ops": acct["ops"], "writes_ok": acct["writes_ok"],
                                  "writes_rejected_by_limit": acct["writes_rejected"], "writes_failed_os": acct["writes_oserr"],
                                  "releases": acct["releases"], "known_leak_events": acct["known_leak_events"],
